@@ -13,6 +13,7 @@ import (
 	"verif/internal/fgen"
 	"verif/internal/gen"
 	"verif/internal/harness"
+	"verif/internal/hostile"
 	"verif/internal/spec"
 )
 
@@ -202,6 +203,11 @@ func genAcc(t *rapid.T) accCase {
 		}
 	}
 	c.Access = genAccess(t, start, count)
+	if (c.Access.Kind == "String" || c.Access.Kind == "StringWithByteOrder") && c.Access.Addr >= start && c.Access.Addr < start+count && rapid.IntRange(0, 3).Draw(t, "text_token") == 0 {
+		// the addressed text begins with bytes that text decoders treat specially (byte order marks, multi-byte UTF-8 sequences, ...)
+		tok := rapid.SampledFrom(hostile.TextTokens).Draw(t, "token")
+		hostile.PlantText(c.Payload, 2*(c.Access.Addr-start), tok, rapid.Bool().Draw(t, "token_swapped"))
+	}
 	return c
 }
 
